@@ -6,6 +6,7 @@ import (
 	"strings"
 
 	"github.com/llir/llvm/ir"
+	"github.com/llir/llvm/ir/constant"
 	"github.com/llir/llvm/ir/types"
 	"github.com/llir/llvm/ir/value"
 
@@ -32,7 +33,97 @@ func genC15(ctx *fw.Ctx) []fw.Case {
 		s := s
 		cases = append(cases, fw.Case{ID: s.ID, Run: func(r *fw.Rec) { c15Source(r, s) }})
 	}
+	cases = append(cases, fw.Case{ID: "api/constructed-terminators", Run: c15Constructed})
 	return cases
+}
+
+// c15Constructed builds every terminator through its constructor (including
+// the forms with an absent unwind target: `unwind to caller`), with unnamed
+// blocks that have never been numbered, and runs the operand and successor
+// checks on the constructed values themselves (no print or parse in between).
+func c15Constructed(r *fw.Rec) {
+	m := ir.NewModule()
+	g := m.NewFunc("g", types.Void)
+	pers := m.NewFunc("pers", types.I32)
+	pers.Sig.Variadic = true
+	f := m.NewFunc("f", types.Void, ir.NewParam("x", types.I32), ir.NewParam("p", types.I8Ptr), ir.NewParam("c", types.I1))
+	f.Personality = pers
+	entry, ok1, cs, h, cl, sw, a, b, ib, cb, done := f.NewBlock(""), f.NewBlock(""), f.NewBlock(""), f.NewBlock(""), f.NewBlock(""), f.NewBlock(""), f.NewBlock(""), f.NewBlock(""), f.NewBlock(""), f.NewBlock(""), f.NewBlock("")
+	entry.NewInvoke(g, nil, ok1, cs)
+	csw := cs.NewCatchSwitch(constant.None, []*ir.Block{h}, nil)
+	cp := h.NewCatchPad(csw)
+	h.NewCatchRet(cp, ok1)
+	ok1.NewInvoke(g, nil, sw, cl)
+	clp := cl.NewCleanupPad(constant.None)
+	cl.NewCleanupRet(clp, nil)
+	sw.NewSwitch(f.Params[0], a, ir.NewCase(constant.NewInt(types.I32, 1), b), ir.NewCase(constant.NewInt(types.I32, 2), a))
+	a.NewCondBr(f.Params[2], b, ib)
+	b.NewBr(ib)
+	ib.NewIndirectBr(f.Params[1], cb, done)
+	asm := ir.NewInlineAsm(types.NewPointer(types.NewFunc(types.Void)), "", "")
+	asm.SideEffect = true
+	cb.NewCallBr(asm, nil, done, a)
+	done.NewRet(nil)
+	// a second cleanup funclet whose cleanupret unwinds to a block
+	cl2, cl3 := f.NewBlock(""), f.NewBlock("")
+	clp2 := cl2.NewCleanupPad(constant.None)
+	cl2.NewCleanupRet(clp2, cl3)
+	clp3 := cl3.NewCleanupPad(constant.None)
+	cl3.NewCleanupRet(clp3, nil)
+	for _, blk := range f.Blocks {
+		term := blk.Term
+		kind := kindOf(term)
+		r.Eval(1)
+		var ops []*value.Value
+		var succs []*ir.Block
+		if p, msg, _ := fw.Guard(func() { ops = term.Operands(); succs = term.Succs() }); p {
+			r.Violate(fw.Violation{Key: "constructed/panic/" + kind, What: "Operands()/Succs() of a terminator built by its constructor panics: " + firstLine(msg)})
+			return
+		}
+		for _, p := range ops {
+			if *p != nil && reflect.ValueOf(*p).Kind() == reflect.Ptr && reflect.ValueOf(*p).IsNil() {
+				r.Violate(fw.Violation{Key: "constructed/typed-nil-operand/" + kind, What: fmt.Sprintf("Operands() of a %s built by its constructor holds a typed nil (%T): an absent unwind target must be an absent operand", kind, *p)})
+				return
+			}
+		}
+		for _, sb := range succs {
+			if sb == nil {
+				r.Violate(fw.Violation{Key: "constructed/nil-successor/" + kind, What: fmt.Sprintf("Succs() of a %s built by its constructor contains nil", kind)})
+				return
+			}
+		}
+	}
+	text, pp := printGuard(m)
+	if pp != "" {
+		// (print once the unnumbered-state checks below are done would hide nothing: do them on a fresh build)
+		r.Violate(fw.Violation{Key: "constructed/print-panic", What: "printing a module whose terminators were built by their constructors panics: " + firstLine(pp)})
+		return
+	}
+	_ = text
+	// operand and successor checks on a fresh, never printed build (unnamed blocks carry no numbers yet)
+	m2 := ir.NewModule()
+	f2 := m2.NewFunc("f", types.Void, ir.NewParam("x", types.I32), ir.NewParam("p", types.I8Ptr), ir.NewParam("c", types.I1))
+	e2, a2, b2, c2, d2 := f2.NewBlock(""), f2.NewBlock(""), f2.NewBlock(""), f2.NewBlock(""), f2.NewBlock("")
+	e2.NewSwitch(f2.Params[0], a2, ir.NewCase(constant.NewInt(types.I32, 1), b2))
+	a2.NewCondBr(f2.Params[2], b2, c2)
+	b2.NewBr(c2)
+	c2.NewIndirectBr(f2.Params[1], d2, a2)
+	d2.NewRet(nil)
+	for _, blk := range f2.Blocks {
+		if blk.Term != nil {
+			c15Succs(r, "api/constructed", "(constructed, never printed)", f2, blk.Term)
+		}
+	}
+	for _, blk := range f.Blocks {
+		if blk.Term != nil {
+			c15User(r, "api/constructed", text, f, blk.Term)
+			c15Succs(r, "api/constructed", text, f, blk.Term)
+		}
+		for _, inst := range blk.Insts {
+			c15User(r, "api/constructed", text, f, inst)
+		}
+	}
+	r.Tally("inputs", "constructed")
 }
 
 var valueIface = reflect.TypeOf((*value.Value)(nil)).Elem()
@@ -469,6 +560,28 @@ func c15Succs(r *fw.Rec, id, text string, f *ir.Func, term ir.Terminator) {
 		}
 		nb := ir.NewBlock("verif.retarget")
 		nb.Parent = f
+		// also: a block that carries the same label as the old target (a rebuilt copy
+		// of the block; or both unnamed and not numbered yet)
+		twin := ir.NewBlock("")
+		twin.LocalIdent = old.LocalIdent
+		twin.Parent = f
+		fw.Guard(func() { term.Succs() })
+		*p = twin
+		var gotTwin []*ir.Block
+		panTwin, _, _ := fw.Guard(func() { gotTwin = term.Succs() })
+		foundTwin := false
+		for _, b := range gotTwin {
+			if b == twin {
+				foundTwin = true
+			}
+		}
+		if !panTwin && !foundTwin {
+			*p = old
+			resetSuccCache(term)
+			r.Violate(fw.Violation{Key: "succs-stale-same-label/" + kind, Input: text,
+				What: fmt.Sprintf("after Succs() was called once, a branch target of %s was replaced through its operand slot by another block that carries the same label (%s): Succs() still returns the old block", kind, old.Ident())})
+			break
+		}
 		*p = nb
 		var got2 []*ir.Block
 		pan, msg, _ := fw.Guard(func() { got2 = term.Succs() })
